@@ -12,6 +12,7 @@ See DESIGN.md 3.2.  Fail-closed: constructs not understood in a statement positi
 `Opaque` records which the rule layer turns into ANALYSIS-ERROR when they touch what it monitors.
 """
 import ast
+import os
 import copy
 from .core import AnalysisError, unparse, norm
 
@@ -373,9 +374,84 @@ class FX:
                 env.update(bind)
             r = self._run_function(fn, env)
             self.returns.append(r)
+        self._dealias_new_intermediates(ctx)
         ctx.analysed["classes" if cls else "functions"].add(f"{rel}::{self.scope}")
         ctx.analysed["ir_records"] += len(self.assigns) + len(self.trans) + len(self.insts)
         ctx.analysed["fsms"] += len(self.fsms)
+
+    def _dealias_new_intermediates(self, ctx):
+        """A 1-bit local signal that the pinned tree does not have (not in lxs/localnames.json for this scope) and that is nothing
+        but a name for a comb expression (`g = Signal(); self.comb += g.eq(<expr>)`, one unconditional driver) is substituted by
+        that expression wherever it is read: introducing such an intermediate preserves behaviour and must not change what the
+        rules see.  Known names are never touched."""
+        if os.environ.get("LXS_NO_RENAME"):
+            return
+        from . import names
+        rec = names.table().get(self.rel, {}).get(self.scope)
+        if rec is None:
+            return
+        subst = {}
+        for nm, d in list(self.decl.items()):
+            if not nm.isidentifier() or nm in rec or d[0] != "Signal":
+                continue
+            call = d[1]
+            if call.keywords or len(call.args) > 1 or (call.args and norm(call.args[0]) != "1"):
+                continue
+            drv = [a for a in self.assigns if a.t == nm and a.kind == "eq"]
+            if len(drv) != 1 or drv[0].domain != "comb" or drv[0].guards or drv[0].state is not None:
+                continue
+            if any(isinstance(x, ast.Name) and x.id == nm for x in ast.walk(drv[0].value)):
+                continue
+            # defined inside a loop / Python branch: every reader must live in the same iteration and branch
+            d0 = drv[0]
+
+            def reads(a):
+                return any(isinstance(x, ast.Name) and x.id == nm for e in [a.value, a.target] + [c for c, _ in a.guards]
+                           if isinstance(e, ast.AST) for x in ast.walk(e))
+            readers = [a for a in self.assigns if a is not d0 and reads(a)]
+            if not all(list(a.loops[:len(d0.loops)]) == list(d0.loops) and all(pg in a.pyguards for pg in d0.pyguards) for a in readers):
+                continue
+            if (d0.loops or d0.pyguards) and any(any(isinstance(x, ast.Name) and x.id == nm for c, _ in t.guards for x in ast.walk(c))
+                                                  for t in self.trans):
+                continue
+            subst[nm] = drv[0]
+        if not subst:
+            return
+
+        class X(ast.NodeTransformer):
+            def visit_Name(self, n):
+                if n.id in subst:
+                    return copy.deepcopy(subst[n.id].value)
+                return n
+
+        def sub(e):
+            if e is None or not isinstance(e, ast.AST):
+                return e
+            if not any(isinstance(x, ast.Name) and x.id in subst for x in ast.walk(e)):
+                return e
+            out = e
+            for _ in range(4):          # intermediates defined from intermediates
+                out = ast.fix_missing_locations(X().visit(copy.deepcopy(out)))
+                if not any(isinstance(x, ast.Name) and x.id in subst for x in ast.walk(out)):
+                    break
+            return out
+        keep = []
+        for a in self.assigns:
+            if any(a is d for d in subst.values()):
+                continue
+            a.value = sub(a.value)
+            a.target = sub(a.target)
+            a.guards = [(sub(c), p) for c, p in a.guards]
+            a._t = a._v = None
+            keep.append(a)
+        self.assigns = keep
+        for t in self.trans:
+            t.guards = [(sub(c), p) for c, p in t.guards]
+        for c in self.conns:
+            c["guards"] = [(sub(g), p) for g, p in c["guards"]]
+        for nm in subst:
+            self.decl.pop(nm, None)
+            ctx.note(f"{self.rel}::{self.scope}: new 1-bit intermediate `{nm}` = {norm(subst[nm].value)[:80]} substituted where it is read")
 
     # ------------------------------------------------------------------ class structure
     def _lookup_class(self, name):
